@@ -1,7 +1,7 @@
 """registry entry of C19 (Lean files carrying the obligations, correspondence script, labels)"""
 from reg._common import COMMON_ASSUME
 
-ENTRY = {'lean_files': ['Tables/C19.lean', 'Props/C19.lean', 'Props/C19More.lean'],
+ENTRY = {'lean_files': ['Tables/SrcPyAlgebraic.lean', 'Tables/C19.lean', 'Props/C19.lean', 'Props/C19More.lean'],
  'lemma_files': ['Lemmas/Resultant.lean', 'Lemmas/Subdivide.lean', 'Lemmas/Deriv.lean', 'Lemmas/Shift.lean',
                  'Lemmas/Bridge.lean',
                  'Lemmas/VS.lean',
@@ -13,7 +13,7 @@ ENTRY = {'lean_files': ['Tables/C19.lean', 'Props/C19.lean', 'Props/C19More.lean
                  'Model/Algebraic.lean'],
  'script': 'props/c19.py',
  'configs': ['pure', 'speedup'],
- 'extractors': ['extract_algebraic.py'],
+ 'extractors': ['extract_algebraic.py', 'translate_py.py'],
  'rule': 'cases = (section, exact inputs); pure configuration: all sections; speedup configuration: the sections whose '
          'functions reach a shim (eval_intersection_polynomial / to_power_basis via evaluate_multi; all_intersections via '
          'bbox_intersect, full_reduce, newton_refine). implicit: lattice nets (|entries| <= 4, incl. degree-elevated and '
